@@ -46,6 +46,8 @@ pub fn sign(f: &[&str]) -> String {
         let mut m = match f[10] {
             "raw0" => b.body(unhex(f[11])).map_err(|e| format!("build: {e}"))?,
             "raw1" => b.body(s(f[11])?).map_err(|e| format!("build: {e}"))?,
+            // octets handed over as they are, declared binary: white-space runs and long lines survive
+            "bin" => b.body(lettre::message::Body::dangerous_pre_encoded(unhex(f[11]), lettre::message::header::ContentTransferEncoding::Binary)).map_err(|e| format!("build: {e}"))?,
             _ => {
                 let toks: Vec<&str> = f[11].split(' ').collect();
                 let mut it = toks.iter();
@@ -60,6 +62,27 @@ pub fn sign(f: &[&str]) -> String {
         m.sign(&cfg);
         let after = m.formatted();
         Ok(format!("ok\t{}\t{}", hex(&before), hex(&after)))
+    })();
+    r.unwrap_or_else(|e| format!("err\t{e}"))
+}
+
+/// dkim.resign <rsa|ed> <hc s|r> <first body canon s|r> <second body canon s|r> <body hex> <clone 0|1>:
+/// a message signed once, then (itself or a clone of it) signed again with another body canonicalization
+pub fn resign(f: &[&str]) -> String {
+    let r = (|| -> Result<String, String> {
+        let alg = if f[1] == "rsa" { DkimSigningAlgorithm::Rsa } else { DkimSigningAlgorithm::Ed25519 };
+        let c = |x: &str| if x == "s" { T::Simple } else { T::Relaxed };
+        let names = || ["From", "Subject", "To", "Date"].iter().map(|n| HeaderName::new_from_ascii(n.to_string()).unwrap()).collect::<Vec<_>>();
+        let key = || DkimSigningKey::new(if f[1] == "rsa" { KEY_RSA } else { KEY_ED }, alg).map_err(|e| format!("key: {e}"));
+        let cfg1 = DkimConfig::new("sel1".into(), "x.example".into(), key()?, names(), DkimCanonicalization { header: c(f[2]), body: c(f[3]) });
+        let cfg2 = DkimConfig::new("sel1".into(), "x.example".into(), key()?, names(), DkimCanonicalization { header: c(f[2]), body: c(f[4]) });
+        let mut m = lettre::Message::builder().from("Alice <a@x.example>".parse().unwrap()).to("b@y.example".parse().unwrap()).subject("re-signed")
+            .date(std::time::UNIX_EPOCH + std::time::Duration::from_secs(1_700_000_000)).body(unhex(f[5])).map_err(|e| format!("build: {e}"))?;
+        m.sign(&cfg1);
+        let first = m.formatted();
+        let mut m2 = if f[6] == "1" { m.clone() } else { m };
+        m2.sign(&cfg2);
+        Ok(format!("ok\t{}\t{}", hex(&first), hex(&m2.formatted())))
     })();
     r.unwrap_or_else(|e| format!("err\t{e}"))
 }
